@@ -245,7 +245,8 @@ void h_cond_broadcast(void) {
 }
 void h_cond_init(void) {
   __CPROVER_havoc_object(&CV);
-  myth_cond_init_body(&CV, 0);
+  myth_condattr_t cat_; _Bool with_cattr = nondet_bool();      /* with or without an attribute object: the queue is initialised either way */
+  myth_cond_init_body(&CV, with_cattr ? &cat_ : 0);
   __CPROVER_assert(CV.sleep_q->head == 0 && CV.sleep_q->tail == 0 && CV.sleep_q->ilock->locked == 0, "cond_init: empty, unlocked queue");
   VERIF_CANARY();
 }
